@@ -46,7 +46,8 @@ def run_case(case, fmt, tmp, select=False):
     # "fb+nested": the value lives one level down and the caller updates it in place
     fmt, _, flag = fmt.partition("+")
     nested = flag == "nested"
-    falsy = flag == "falsy"      # the value is accompanied by entries whose values are falsy (0, False, "", None, []): they are part of the metadata
+    falsy = flag == "falsy"
+    reorder = flag == "reorder"  # the metadata has two entries and the caller rebuilds the dict with the keys in the other order between writes (equal value)      # the value is accompanied by entries whose values are falsy (0, False, "", None, []): they are part of the metadata
     root = Path(tmp) / "d"
     if root.exists():
         shutil.rmtree(root)
@@ -72,10 +73,14 @@ def run_case(case, fmt, tmp, select=False):
                             d["k"] = {"id": op[2]} if nested else op[2]
                             if falsy:
                                 d.update(FALSY)
+                            if reorder:
+                                d["tag"] = "x"
                     raised.append(False)
                 else:
                     _, split, o, ok = op
                     cm = None if o is None else objs.setdefault(o, {})
+                    if reorder and cm and i % 2:
+                        cm = dict(reversed(list(cm.items())))      # an equal dict whose keys were inserted in the opposite order
                     if ok:
                         val = np.array([i], np.int32)
                     elif fmt == "tfrec" and i % 2:
@@ -103,6 +108,8 @@ def run_case(case, fmt, tmp, select=False):
             except Exception as e:  # noqa: BLE001
                 ex = f"undecodable:{type(e).__name__}"
             k = kval(sh.custom_metadata)
+            if reorder and k and dict(sh.custom_metadata) != {"k": k, "tag": "x"}:
+                k = -1
             if falsy and k and dict(sh.custom_metadata) != dict({"k": k}, **FALSY):
                 k = -1          # the recorded metadata is not the value that was written (some entries are missing or changed)
             out.append([sh.number_of_examples, ex, k])
